@@ -10,5 +10,7 @@ import AtreeProofs.Array.Restructure
 import AtreeProofs.Array.MergeRebal
 import AtreeProofs.Array.Route
 import AtreeProofs.Array.TreeOps
+import AtreeProofs.Array.Top
+import AtreeProofs.Array.Iter
 /- Helper lemmas for the array model (arithmetic layer, slab layer, tree layer): see
    `AtreeProofs/Array/*.lean`. -/
